@@ -107,6 +107,8 @@ def build(tier, seed):
         ("ref/lzma/hdr-nocrc", {"folders": [{"n": 3, "chain": [{"m": "LZMA"}], "crc": "sub"}], "header": "lzma"}),
         ("ref/foldercrc/single", {"folders": [{"n": 1, "chain": [{"m": "LZMA2"}], "crc": "folder"}, {"n": 1, "chain": [{"m": "COPY"}], "crc": "folder"}, {"n": 1, "chain": [{"m": "COPY"}], "crc": "folder"}], "header": "raw"}),
         ("ref/aes/packcrc", {"folders": [{"n": 3, "chain": [{"m": "LZMA2"}, {"m": "7zAES", "cycles": 6}], "crc": "sub"}], "header": "lzma+crc", "pack_crc": True}),
+        # pack CRCs defined for some of the packed streams only: test() can vouch for those, not for the archive (third hunt)
+        ("ref/partial-packcrc", {"folders": [{"n": 1, "chain": [{"m": "COPY"}], "crc": "sub"}, {"n": 1, "chain": [{"m": "LZMA2"}], "crc": "sub"}, {"n": 1, "chain": [{"m": "COPY"}], "crc": "sub"}], "header": "raw", "pack_crc": "partial"}),
         ("ref/4folders", {"folders": [{"n": 1, "chain": [{"m": "COPY"}], "crc": "sub"}] * 3, "header": "lzma+crc"}),
     ]
     for label, lay in ref_layouts:
